@@ -73,3 +73,51 @@ func VerifC29_kfakeTwoStep() {
 	verifAssert(verifAnd(ok3, verifAnd(dup3, off3 == o1)), "replayed batch answered as duplicate with original offset")
 	verifReached("c29-kfake-two-step")
 }
+
+// From every reachable window fill level (0..5 stored batches, write position anywhere once
+// full): a batch accepted at the expected sequence is REMEMBERED — its immediate retry (the
+// response was lost) is answered as a duplicate with the offset it was appended at, and the
+// most recently stored older batch is still answered as a duplicate too. This is the "last
+// five appended batches" window at every position of its ring, including the step that fills
+// the fifth slot and the first overwrite.
+func VerifC29_kfakeAcceptedIsRemembered() {
+	w := verifC29Window()
+	// representation invariant of a window built by pushAndValidate: while not full the
+	// write position equals the fill level
+	verifAssume(verifOr(w.count == 5, w.at == w.count))
+	verifAssume(w.seen)
+	n := verifNondetInt32("b.n")
+	off := verifNondetInt64("b.offset")
+	verifAssume(verifAnd(n >= 1, off >= 0))
+	first := w.nextSeq
+	want := int32((int64(first) + int64(n)) & 0x7fffffff)
+	// no stored batch coincides with the new one (a full 2^31 wrap inside the window)
+	for i := 0; i < 5; i++ {
+		verifAssume(verifNot(verifAnd(w.entries[i].firstSeq == first, w.entries[i].nextSeq == want)))
+	}
+	// the most recent older batch, if any, and no earlier-scanned entry shadows it
+	hasPrev := w.count > 0
+	prevIdx := (int(w.at) + 4) % 5
+	prev := w.entries[prevIdx]
+	if hasPrev {
+		for i := 0; i < 5; i++ {
+			if i != prevIdx {
+				verifAssume(verifNot(verifAnd(w.entries[i].firstSeq == prev.firstSeq, w.entries[i].nextSeq == prev.nextSeq)))
+			}
+		}
+		verifAssume(verifNot(verifAnd(prev.firstSeq == first, prev.nextSeq == want)))
+	}
+	epoch := w.epoch
+	ok, dup, _ := w.pushAndValidate(epoch, first, n, off)
+	verifAssert(verifAnd(ok, !dup), "a batch at the expected sequence is accepted")
+	ok2, dup2, off2 := w.pushAndValidate(epoch, first, n, 999)
+	verifAssert(verifAnd(ok2, verifAnd(dup2, off2 == off)), "the batch just accepted is remembered: its retry is a duplicate with the original offset (at every fill level and ring position)")
+	if hasPrev {
+		np := (int64(prev.nextSeq) - int64(prev.firstSeq)) & 0x7fffffff
+		if np >= 1 {
+			ok3, dup3, off3 := w.pushAndValidate(epoch, prev.firstSeq, int32(np), 999)
+			verifAssert(verifAnd(ok3, verifAnd(dup3, off3 == prev.offset)), "the previously stored batch is still answered as a duplicate after one more batch was appended")
+		}
+	}
+	verifReached("c29-kfake-remembered")
+}
